@@ -126,6 +126,21 @@ CHECKS = {
    note='Trusted: Lean kernel, hand-written model, harness. Not proved (correspondence and dense oracle only): sparse*sparse product, indexed '
         'assignment, slicing, V assignment, size change, complex matrices, gemm/symv with sparse operands.',
    technique='Lean 4 proof (invariant + refinement to the dense image) over a hand-written model + op-sequence correspondence'),
+ 'C11': dict(
+   category='proof',
+   text='Lean 4 theorems over a direct semantics of the documented expression language (Spec/Expr.lean: len with the broadcasting '
+        'rule, component values, curvature class by the composition rules; operators + - unary- scalar and matrix multiplication, '
+        'division, dot, sum, max, min, abs, indexing, slicing and the in-place forms). Proved for all expression trees, all variable '
+        'lengths, all rational values and all weights in [0,1]: whatever the rules accept as convex / concave / affine / constant '
+        'satisfies Jensen / the affine identity / is value-independent in every component (structural induction); value has exactly '
+        'len entries; in-place forms never change the length; the required refusals. The semantics is tied to cvxopt.modeling by '
+        'building generated trees with the real operators and comparing len, value (two assignments), acceptance vs refusal, plus '
+        'mutation-based non-aliasing checks of every operator.',
+   design_ref='DESIGN.md 5 C11',
+   note='Trusted: Lean kernel, the correspondence harness and its generator (integer data, so doubles are exact). The internal '
+        'coefficient representation (_lin._coeff and the _addterm case analysis) is not modelled: it is exercised through the trees. '
+        'Ten genuine defects found by this check were repaired (fix: commits, see known_findings.json).',
+   technique='Lean 4 proof (structural induction over expression trees) with spec-vs-code correspondence'),
  'C20': dict(
    category='proof',
    text='Lean theorems: the reduced state of a dense matrix rebuilds it (all shapes/typecodes); for every structurally valid sparse matrix the '
